@@ -632,15 +632,24 @@ Proof.
   intros Hok Ha Hroot. induction fuel as [|fuel IH]; intros name es Hall Hseg; [reflexivity|].
   rewrite !em_module_tokens_S, em_child_names_map, em_here_map.
   rewrite (em_mapM_rmap (fun h => module_tokens s1 fuel h (under h es)) _ (map phi)).
-  - rewrite (em_mapM_map (fun e => type_ir_tokens s1 (snd (snd e))) _ _ (map phi)).
-    + destruct (mapM _ (child_names es)) as [mods|e|msg]; cbn [rmap bind]; try reflexivity.
-      destruct (mapM _ (here es)) as [tys|e|msg]; cbn [rmap bind]; try reflexivity.
-      f_equal. rewrite !map_app, !concat_map, Hroot. cbn [map]. fix_lits phi Hok. reflexivity.
-    + intros e He. unfold em_entry_map. cbn [fst snd].
+  - destruct (mapM _ (child_names es)) as [mods|e|msg]; cbn [rmap bind]; try reflexivity.
+    match goal with
+    | |- bind ?X _ = _ =>
+        assert (E : X = rmap (map (map phi))
+                          (mapM (fun e : list string * (list string * type_ir) =>
+                                   type_ir_tokens s1 (snd (snd e))) (here es)))
+    end.
+    { apply em_mapM_map. intros e He. unfold em_entry_map. cbn [fst snd].
       apply filter_In in He as [He _].
       rewrite Forall_forall in Hall. specialize (Hall e He). cbn beta in Hall.
       apply (type_ir_tokens_map phi d s1 s2 (snd (snd e))); [|apply Hall|exact Ha].
-      eapply em_item_ok_phi; eauto.
+      eapply em_item_ok_phi; eauto. }
+    rewrite E. clear E.
+    match goal with
+    | |- context [rmap _ (mapM ?f (here es))] =>
+        destruct (mapM f (here es)) as [tys|e|msg]; cbn [rmap bind]; try reflexivity
+    end.
+    f_equal. rewrite !map_app, !concat_map, Hroot. cbn [map]. fix_lits phi Hok. reflexivity.
   - intros h Hh. apply em_child_names_in in Hh as (e & He & Hh).
     assert (Eh : phi h = h) by (eapply Hseg; eauto).
     rewrite em_under_map. rewrite <- Eh at 1. apply IH.
@@ -674,4 +683,104 @@ Proof.
     + intros e' seg He' Hs. apply in_map_iff in He' as (e & <- & He).
       cbn [fst] in Hs. apply (Hseg e seg He Hs).
   - unfold map_items. rewrite !map_map. apply map_ext. intros e. reflexivity.
+Qed.
+
+(** * 4. Every output token is a generator literal or an input *)
+
+Lemma em_rename_same a b : rename_tok a b a = b.
+Proof. unfold rename_tok. rewrite String.eqb_refl. reflexivity. Qed.
+
+Lemma em_rename_other a b x : x <> a -> rename_tok a b x = x.
+Proof.
+  intros Hne. unfold rename_tok. destruct (String.eqb x a) eqn:E; [|reflexivity].
+  apply String.eqb_eq in E. contradiction.
+Qed.
+
+Lemma em_fresh_neq w : (if String.eqb w "" then "a" else "") <> w.
+Proof.
+  destruct (String.eqb w "") eqn:E.
+  - apply String.eqb_eq in E. subst w. discriminate.
+  - apply String.eqb_neq in E. intros E'. apply E. symmetry. exact E'.
+Qed.
+
+Lemma em_rename_phi_ok w w' d c : ~ gen_lit d c w -> phi_ok (rename_tok w w') d c.
+Proof.
+  intros Hn x Hx. apply em_rename_other. intros E. subst x. contradiction.
+Qed.
+
+Lemma em_rename_fixed w w' l x : ~ In w l -> In x l -> rename_tok w w' x = x.
+Proof. intros Hn Hx. apply em_rename_other. intros E. subst x. contradiction. Qed.
+
+Lemma em_ok_inj {A} (x y : A) : Ok x = Ok y -> x = y.
+Proof. intros H. congruence. Qed.
+
+Lemma tp_tokens_from alloc t toks w :
+  tp_tokens alloc t = Ok toks ->
+  ~ gen_lit false false w ->
+  ~ In w (alloc ++ tpath_inputs t) ->
+  ~ In w toks.
+Proof.
+  intros H Hnl Hni.
+  set (w' := if String.eqb w "" then "a" else "").
+  set (phi := rename_tok w w').
+  assert (Hok : phi_ok phi false false) by (apply em_rename_phi_ok; exact Hnl).
+  assert (Hfix : forall x, In x (alloc ++ tpath_inputs t) -> phi x = x).
+  { intros x Hx. eapply em_rename_fixed; eauto. }
+  pose proof (tp_tokens_map phi false false alloc t Hok) as E.
+  rewrite (map_phi_fixed phi alloc) in E by (intros x Hx; apply Hfix, in_or_app; left; exact Hx).
+  rewrite (map_tpath_fixed phi t) in E by (intros x Hx; apply Hfix, in_or_app; right; exact Hx).
+  rewrite H in E. cbn [rmap bind] in E. apply em_ok_inj in E.
+  apply (em_fixed_no_occ phi); [symmetry; exact E|].
+  unfold phi. rewrite em_rename_same. apply em_fresh_neq.
+Qed.
+
+Lemma type_ir_tokens_from d s ir toks w :
+  type_ir_tokens s ir = Ok toks ->
+  (d = false -> ir_docs_empty ir = true) ->
+  ~ gen_lit d (ti_codec ir) w ->
+  ~ In w (alloc_tokens (s_alloc s) ++ ir_inputs ir) ->
+  ~ In w toks.
+Proof.
+  intros H Hd Hnl Hni.
+  set (w' := if String.eqb w "" then "a" else "").
+  set (phi := rename_tok w w').
+  assert (Hok : phi_ok phi d (ti_codec ir)) by (apply em_rename_phi_ok; exact Hnl).
+  assert (Hfix : forall x, In x (alloc_tokens (s_alloc s) ++ ir_inputs ir) -> phi x = x).
+  { intros x Hx. eapply em_rename_fixed; eauto. }
+  assert (Ha : alloc_tokens (s_alloc s) = map phi (alloc_tokens (s_alloc s))).
+  { symmetry. apply map_phi_fixed. intros x Hx. apply Hfix, in_or_app. left. exact Hx. }
+  pose proof (type_ir_tokens_map phi d s s ir Hok Hd Ha) as E.
+  rewrite (map_ir_fixed phi ir) in E by (intros x Hx; apply Hfix, in_or_app; right; exact Hx).
+  rewrite H in E. cbn [rmap bind] in E. apply em_ok_inj in E.
+  apply (em_fixed_no_occ phi); [symmetry; exact E|].
+  unfold phi. rewrite em_rename_same. apply em_fresh_neq.
+Qed.
+
+Lemma emit_tokens_from d c s (m : items) toks w :
+  emit_module s m = Ok toks ->
+  Forall (fun e => item_ok d c (snd (snd e))) m ->
+  ~ gen_lit d c w ->
+  ~ In w (s_root s :: alloc_tokens (s_alloc s) ++ items_inputs m) ->
+  ~ In w toks.
+Proof.
+  intros H Hall Hnl Hni.
+  set (w' := if String.eqb w "" then "a" else "").
+  set (phi := rename_tok w w').
+  assert (Hok : phi_ok phi d c) by (apply em_rename_phi_ok; exact Hnl).
+  assert (Hfix : forall x, In x (s_root s :: alloc_tokens (s_alloc s) ++ items_inputs m) -> phi x = x).
+  { intros x Hx. eapply em_rename_fixed; eauto. }
+  assert (Ha : alloc_tokens (s_alloc s) = map phi (alloc_tokens (s_alloc s))).
+  { symmetry. apply map_phi_fixed. intros x Hx. apply Hfix. right. apply in_or_app. left. exact Hx. }
+  assert (Hroot : s_root s = phi (s_root s)).
+  { symmetry. apply Hfix. left. reflexivity. }
+  assert (Hseg : forall e seg, In e m -> In seg (fst e) -> phi seg = seg).
+  { intros e seg He Hs. apply Hfix. right. apply in_or_app. right.
+    unfold items_inputs. apply in_flat_map. exists e. split; [exact He|].
+    apply in_or_app. left. exact Hs. }
+  pose proof (emit_module_map phi d c s s m Hok Hall Hseg Ha Hroot) as E.
+  rewrite (map_items_fixed phi m) in E
+    by (intros x Hx; apply Hfix; right; apply in_or_app; right; exact Hx).
+  rewrite H in E. cbn [rmap bind] in E. apply em_ok_inj in E.
+  apply (em_fixed_no_occ phi); [symmetry; exact E|].
+  unfold phi. rewrite em_rename_same. apply em_fresh_neq.
 Qed.
